@@ -374,7 +374,17 @@ func runD4(t *Trace, seed int64, full bool, shard, shards int) {
 							continue
 						}
 						r := rand.New(rand.NewSource(seed*1000003 + int64(k)))
-						feed4(t, in4{parse: parse, op: op, mt: mt, gi: gi, ci: "zero", bflag: false, final: final, yi: true, bound: 0, oobif: 7, hlen: 6}, r, "d4")
+						hl := 6
+						if op == 1 && (mt == 1 || mt == 3) {
+							// the requests that are answered come with every hardware address length chaddr has room for
+							// (both reply paths of this product: relay, and link-level unicast)
+							for _, h := range []int{0, 1, 7, 8, 15, 16} {
+								feed4(t, in4{parse: parse, op: op, mt: mt, gi: gi, ci: "zero", bflag: false, final: final, yi: true, bound: 0, oobif: 7, hlen: h}, r, "d4")
+							}
+						} else {
+							hl = []int{6, 6, 6, 16, 0, 8}[k%6]
+						}
+						feed4(t, in4{parse: parse, op: op, mt: mt, gi: gi, ci: "zero", bflag: false, final: final, yi: true, bound: 0, oobif: 7, hlen: hl}, r, "d4")
 					}
 				}
 			}
@@ -432,7 +442,9 @@ func runD4Addr(t *Trace, seed int64, reps int) {
 								for _, bo := range [][2]int{{ifA, 0}, {ifA, ifB}, {0, ifB}, {0, ifC}} {
 									k++
 									r := rand.New(rand.NewSource(seed*7919 + int64(k)))
-									feed4on(t, lives[bo[0]], in4{parse: true, op: 1, mt: mt, gi: gi, ci: ci, bflag: bflag, final: final, yi: yi, bound: bo[0], oobif: bo[1], hlen: 6}, r, "d4")
+									// hardware address lengths other than 6 as well (chaddr has room for 16): the reply carries the request's, whatever the path
+									feed4on(t, lives[bo[0]], in4{parse: true, op: 1, mt: mt, gi: gi, ci: ci, bflag: bflag, final: final, yi: yi, bound: bo[0], oobif: bo[1],
+										hlen: []int{6, 6, 8, 6, 16, 7, 6, 1, 6, 0, 6}[k%11]}, r, "d4")
 								}
 							}
 						}
@@ -468,6 +480,7 @@ func (i in6) ev() Ev {
 type layer6 struct {
 	link, peer net.IP
 	iid        []byte
+	hasIID     bool
 }
 
 func datagram6(in in6, r *rand.Rand) ([]byte, []layer6) {
@@ -498,8 +511,9 @@ func datagram6(in in6, r *rand.Rand) ([]byte, []layer6) {
 		}
 		rm := &dhcpv6.RelayMessage{MessageType: mt, HopCount: uint8(i), LinkAddr: l.link, PeerAddr: l.peer}
 		if r.Intn(3) != 0 {
-			l.iid = make([]byte, 1+r.Intn(6))
+			l.iid = make([]byte, r.Intn(7)) // 0..6 bytes: an Interface-ID of length 0 is still an Interface-ID to mirror
 			r.Read(l.iid)
+			l.hasIID = true
 			rm.AddOption(dhcpv6.OptInterfaceID(l.iid))
 		}
 		rm.AddOption(dhcpv6.OptRelayMessage(outer))
@@ -597,7 +611,7 @@ func feed6(t *Trace, in in6, r *rand.Rand) {
 				if layersN < len(reqLayers) {
 					rl := reqLayers[layersN]
 					if rm.MessageType != dhcpv6.MessageTypeRelayReply || !rm.LinkAddr.Equal(rl.link) || !rm.PeerAddr.Equal(rl.peer) ||
-						!bytes.Equal(rm.Options.InterfaceID(), rl.iid) {
+						!bytes.Equal(rm.Options.InterfaceID(), rl.iid) || (rm.GetOneOption(dhcpv6.OptionInterfaceID) != nil) != rl.hasIID {
 						mirror = false
 					}
 				} else {
@@ -692,6 +706,7 @@ var (
 	synCalls   []synCall
 	synFirst4  *dhcpv4.DHCPv4
 	synFirst6  dhcpv6.DHCPv6
+	synOrig    []byte // canonical bytes of the datagram fed to the chain
 	synSetups  []string
 	synReg     sync.Once
 )
@@ -737,7 +752,8 @@ func synHandler4(beh string, idx int) handler.Handler4 {
 		if synFirst4 == nil {
 			synFirst4 = req
 		}
-		c := synCall{idx: idx, reqSame: req == synFirst4, id: -1, marks: []int{}}
+		// the ORIGINAL request: the same object for every handler, and the datagram that was fed (not a part or a copy of it)
+		c := synCall{idx: idx, reqSame: req == synFirst4 && bytes.Equal(req.ToBytes(), synOrig), id: -1, marks: []int{}}
 		if resp != nil {
 			c.id, c.marks = marksOf4(resp)
 		}
@@ -774,7 +790,8 @@ func synHandler6(beh string, idx int) handler.Handler6 {
 		if synFirst6 == nil {
 			synFirst6 = req
 		}
-		c := synCall{idx: idx, reqSame: req == synFirst6, id: -1, marks: []int{}}
+		// the ORIGINAL request - for a relayed one the outermost Relay-Forward, not the message inside it
+		c := synCall{idx: idx, reqSame: req == synFirst6 && bytes.Equal(req.ToBytes(), synOrig), id: -1, marks: []int{}}
 		if resp != nil {
 			c.id, c.marks = marksOf6(resp)
 		}
@@ -895,6 +912,9 @@ func runChains(t *Trace, seed int64, maxLen int) error {
 			var pan interface{}
 			if proto == 4 {
 				b, _ := datagram4(in4{parse: true, op: 1, mt: 1 + 2*r.Intn(2), gi: "routable", ci: "zero", final: "base", hlen: 6}, r)
+				if p, err := dhcpv4.FromBytes(b); err == nil {
+					synOrig = p.ToBytes()
+				}
 				l := server.NewVerifListener4(h4, net.Interface{Index: 5})
 				func() {
 					defer func() { pan = recover() }()
@@ -902,6 +922,9 @@ func runChains(t *Trace, seed int64, maxLen int) error {
 				}()
 			} else {
 				b, _ := datagram6(in6{parse: true, depth: r.Intn(3), outer: "forw", itype: []int{1, 3, 5, 11}[r.Intn(4)], cid: true, src: "global", final: "resp"}, r)
+				if p, err := dhcpv6.FromBytes(b); err == nil {
+					synOrig = p.ToBytes()
+				}
 				l := server.NewVerifListener6(h6, net.Interface{Index: 5})
 				func() {
 					defer func() { pan = recover() }()
